@@ -44,6 +44,27 @@ SOURCES = ["src/frequenz/sdk/actor/_actor.py", "src/frequenz/sdk/actor/_backgrou
 PURE_CALLS = {"split", "total_seconds", "difference"}
 
 
+class _SetDiffComp(ast.NodeTransformer):
+    """`{x for x in A if x not in B}` (one generator, one `not in` filter on the element itself, element = the loop variable)
+    is the set difference `A - B` when `A` is a set — here `A` is always `self._tasks`, a `set[asyncio.Task]`."""
+    def visit_SetComp(self, n):              # noqa: N802
+        self.generic_visit(n)
+        if len(n.generators) == 1:
+            g = n.generators[0]
+            if (isinstance(g.target, ast.Name) and isinstance(n.elt, ast.Name) and n.elt.id == g.target.id and not g.is_async
+                    and len(g.ifs) == 1 and isinstance(g.ifs[0], ast.Compare) and len(g.ifs[0].ops) == 1
+                    and isinstance(g.ifs[0].ops[0], ast.NotIn) and isinstance(g.ifs[0].left, ast.Name)
+                    and g.ifs[0].left.id == g.target.id and ast.unparse(g.iter) == "self._tasks"
+                    and g.target.id not in {x.id for x in ast.walk(g.ifs[0].comparators[0]) if isinstance(x, ast.Name)}):
+                return ast.copy_location(ast.BinOp(left=g.iter, op=ast.Sub(), right=g.ifs[0].comparators[0]), n)
+        return n
+
+
+def _parse(src: str) -> ast.Module:
+    return ast.fix_missing_locations(_SetDiffComp().visit(ast.parse(src)))
+
+
+
 class Bad(Exception):
     pass
 
@@ -891,7 +912,7 @@ def _atom(e: ast.expr, env: dict[str, str]) -> str:
 
 # ----------------------------------------------------------------------------- _actor.py
 def _actor(src: str) -> list[str]:
-    tree = ast.parse(src)
+    tree = _parse(src)
     actor = _cls(tree, "Actor")
     out: list[str] = []
     delay_us = None
@@ -1116,7 +1137,7 @@ def _collects(forstmt: ast.For, mod: ast.Module, cls: ast.ClassDef | None = None
 
 
 def _service(src: str) -> list[str]:
-    tree = ast.parse(src)
+    tree = _parse(src)
     svc = _cls(tree, "BackgroundService")
     wait_b = _normalise(_fn(svc, "wait"))         # (no inlining yet: is wait() the loop itself or `await self.<helper>()`?)
     loop_fn = _fn(svc, "wait")
@@ -1323,7 +1344,7 @@ def _guard(e: ast.expr, task: str) -> str:
 
 
 def _cancel_and_await(src: str) -> list[str]:
-    tree = ast.parse(src)
+    tree = _parse(src)
     fn = _fn(tree, "cancel_and_await")
     task = fn.args.args[0].arg
     early, work = [], []
